@@ -51,7 +51,7 @@ func verifCloneKVs(in []verifKV) []verifKV {
 }
 
 func (m *verifMem) View(f func(ReadOnlyTx) error) error { return DoView(m, f) }
-func (m *verifMem) Update(f func(Tx) error) error      { return DoUpdate(m, f) }
+func (m *verifMem) Update(f func(Tx) error) error       { return DoUpdate(m, f) }
 func (m *verifMem) Store(buckets ...[]byte) Interface   { return m }
 
 func (m *verifMem) BeginReadOnlyTx() (ReadOnlyTx, error) {
